@@ -27,7 +27,7 @@ Occ(tr) ==
     [] tr[1] = "bin" -> Occ(tr[3]) \cup Occ(tr[4])
     [] OTHER -> {}
 InsOcc(ins) == IF ins.op \in {"DIM", "PARAM", "TYPE", "DATA", "REM", "PROC", "BASE"} THEN {}
-               ELSE Occ(ins.e) \cup Occ(ins.e2) \cup Occ(ins.e3) \cup OccSeq(ins.a)
+               ELSE Occ(ins.e) \cup Occ(ins.e2) \cup Occ(ins.e3) \cup (IF ins.op = "ONGO" THEN {} ELSE OccSeq(ins.a))
                     \cup (IF ins.op \in {"FOR", "NEXT"} THEN {<<ins.x, "var", 0, "">>} ELSE {})
 \* declarations in text order: <<pc, name, dims, <<type, size>>>>
 DeclList(code) == FoldLeft(LAMBDA acc, q : IF code[q].op = "DIM" THEN acc \o [k \in 1..Len(code[q].a) |-> <<q, code[q].a[k][2], code[q].a[k][3], code[q].a[k][4]>>] ELSE acc,
@@ -50,7 +50,7 @@ SrcUse(dcode, sd, o) ==
       sname == IF cands = {} THEN "" ELSE (CHOOSE x \in cands : TRUE)[1] IN
   IF sname = "" THEN "generated"
   ELSE IF IsDimmed(sd, sname, arr) THEN "dimensioned"
-  ELSE IF <<sname, o[2]>> \in TargetsOf(dcode) /\ ~\E x \in ElseOcc(dcode) : x[1] = sname /\ x[2] = o[2] THEN "only-READ-INPUT-target"
+  ELSE IF ~\E x \in ElseOcc(dcode) : x[1] = sname /\ x[2] = o[2] THEN "only-READ-INPUT-target"      \* the target itself or inside its subscripts
   ELSE IF arr THEN "implicit-array" ELSE "other"
 V10(ok, clause, key, detail) == [ok |-> ok, clause |-> clause, key |-> key, detail |-> detail]
 Verdict(cs) ==
@@ -92,7 +92,7 @@ Verdict(cs) ==
   IF dupl # {} THEN V10(FALSE, "once", "once:declared-twice:" \o names[CHOOSE k \in dupl : TRUE], "")
   ELSE IF undeclared # {} THEN LET o == CHOOSE x \in undeclared : TRUE IN
        V10(FALSE, "declared", "declared:array-never-declared:src-use=" \o
-           (IF \E q \in 1..Len(dp0.code) : dp0.code[q].op \in {"READ", "INPUT"} /\ \E k \in 1..Len(dp0.code[q].a) : dp0.code[q].a[k][1] = "idx" /\ dp0.code[q].a[k][2] = o[1]
+           (IF ~\E x \in ElseOcc(dp0.code) : x[1] = o[1] /\ x[2] = "idx"       \* occurs only as a READ/INPUT target or inside the subscripts of one
             THEN "READ-INPUT-target" ELSE "expression"), o[1])
   ELSE IF badExtent # {} THEN LET o == CHOOSE x \in badExtent : TRUE IN
        V10(FALSE, "extent", "extent:" \o (IF IsDimmed(sd, o[1], TRUE) THEN "dimensioned" ELSE "implicit:rank=" \o ToString(o[3])), o[1])
